@@ -109,3 +109,108 @@ NC_TOKEN = re.compile(r"NC_(BYTE|UBYTE|CHAR|SHORT|USHORT|INT64|UINT64|INT|UINT|F
 
 def nc_tokens(name):
     return NC_TOKEN.findall(name or "")
+
+
+# ---------------------------------------------------------------------------
+# natural loops as clang's CFG presents them
+# ---------------------------------------------------------------------------
+
+class Loop:
+    def __init__(self, fn, head):
+        self.fn = fn
+        self.head = head                      # Block with the loop condition
+        self.cond = head.cond
+        self.body_entry = head.succs[0] if head.succs else None
+        self.exit = head.succs[1] if len(head.succs) > 1 else None
+        self.body = set()
+        if self.body_entry is not None:
+            # blocks reachable from the body entry that can come back to the head
+            reach = region(fn, self.body_entry, {head.id})
+            back = set()
+            st = [p for p in head.preds if p in reach]
+            while st:
+                b = st.pop()
+                if b in back:
+                    continue
+                back.add(b)
+                st.extend(p for p in fn.blocks[b].preds if p in reach)
+            self.body = back
+            # body plus the blocks that leave the loop through break/return/goto
+            self.body_ext = region(fn, self.body_entry, {head.id} | ({self.exit} if self.exit is not None else set()))
+        else:
+            self.body_ext = set()
+        self.var = None       # induction variable name
+        self.var_key = None
+        self.bound = None     # expression the variable is compared with
+        self.op = None
+        c = strip_pre(self.cond)
+        if isinstance(c, dict) and c.get("k") == "bin" and c.get("op") in ("<", "<=", ">", ">=", "!="):
+            a = strip(c["a"])
+            if isinstance(a, dict) and a.get("k") == "ref":
+                self.var, self.var_key, self.bound, self.op = a["n"], lvalue_key(a), c["b"], c["op"]
+        self.init = None      # initial value expression of the induction variable
+        self.step = None      # '++', '--' or ('+=', expr)
+        if self.var_key is not None:
+            for p in head.preds:
+                if p in self.body:
+                    for e in reversed(fn.blocks[p].elems):
+                        s = self._step_of(e)
+                        if s:
+                            self.step = s
+                            break
+                else:
+                    # walk back through single-predecessor chains looking for the initialisation
+                    b = p
+                    hops = 0
+                    while b is not None and self.init is None and hops < 6:
+                        for e in reversed(fn.blocks[b].elems):
+                            v = self._init_of(e)
+                            if v is not None:
+                                self.init = v
+                                break
+                        preds = fn.blocks[b].preds
+                        b = preds[0] if len(preds) == 1 else None
+                        hops += 1
+
+    def _step_of(self, e):
+        for x in walk(e):
+            if x.get("k") == "un" and x.get("op") in ("post++", "pre++", "post--", "pre--") \
+                    and lvalue_key(x["e"]) == self.var_key:
+                return "++" if "++" in x["op"] else "--"
+            if x.get("k") == "asg" and x.get("op") in ("+=", "-=") and lvalue_key(x["a"]) == self.var_key:
+                return (x["op"], x["b"])
+        return None
+
+    def _init_of(self, e):
+        if e.get("k") == "asg" and e.get("op") == "=" and lvalue_key(e["a"]) == self.var_key:
+            return e["b"]
+        if e.get("k") == "decl":
+            for v in e.get("vars", []):
+                if v.get("n") == self.var and v.get("init") is not None and ("v", v.get("id"), v["n"]) == self.var_key:
+                    return v["init"]
+        for x in walk(e):
+            if x is not e and x.get("k") == "asg" and x.get("op") == "=" and lvalue_key(x["a"]) == self.var_key:
+                return x["b"]
+        return None
+
+    def body_elems(self, ext=True):
+        for b in sorted(self.body_ext if ext else self.body, reverse=True):
+            for i, e in enumerate(self.fn.blocks[b].elems):
+                yield self.fn.blocks[b], i, e
+
+    def indexed_by_var(self):
+        """idx nodes in the body (and the head condition) whose index is the induction variable."""
+        out = []
+        for blk, i, e in self.body_elems():
+            for x in walk(e):
+                if x.get("k") == "idx" and lvalue_key(x.get("i")) == self.var_key:
+                    out.append(x)
+        return out
+
+
+def loops(fn):
+    out = []
+    for bid, blk in sorted(fn.blocks.items(), reverse=True):
+        if blk.term in ("for", "while", "do") and blk.cond is not None and len(blk.succs) == 2:
+            out.append(Loop(fn, blk))
+    return out
